@@ -81,8 +81,14 @@ fn insert_ssa_variables_impl<Cfg: SSAConfig>(
             .expect("invalid block index during SSA generation");
         successor_block.update_phi_statements(env);
     }
-    // 3. Update dominator tree successors recursively.
-    for successor_index in dominator_tree.get_dominator_successors(current_index) {
+    // 3. Update dominator tree successors recursively. The successors are
+    // visited in index order, so that the versions assigned, and the first
+    // error reported for an undefined variable, do not depend on the iteration
+    // order of a hash set.
+    let mut dominator_successors =
+        dominator_tree.get_dominator_successors(current_index).into_iter().collect::<Vec<_>>();
+    dominator_successors.sort_unstable();
+    for successor_index in dominator_successors {
         env.add_variable_scope();
         insert_ssa_variables_impl::<Cfg>(successor_index, basic_blocks, dominator_tree, env)?;
         env.remove_variable_scope();
